@@ -113,7 +113,7 @@ func c19LineRun(c c19LineCase) Verdict {
 	}
 	_, fin := w.Finish()
 	if !fin {
-		return Verdict{Inconclusive: "watchdog while finishing"}
+		return finishFail(w)
 	}
 	v := Verdict{}
 	d := total - c.L
@@ -252,7 +252,7 @@ func c19EndlessRun(c c19EndlessCase) Verdict {
 	consumed := w.S.Consumed() - base
 	_, fin := w.Finish()
 	if !fin {
-		return Verdict{Inconclusive: "watchdog while finishing"}
+		return finishFail(w)
 	}
 	v := Verdict{NonTrivial: true, Classes: []string{"endless_" + c.Position}}
 	if p := r.Log.Panicked(); p != "" {
@@ -300,6 +300,9 @@ func c19WordRun(c c19WordCase) Verdict {
 	w.Send(in)
 	_, fin := w.Finish()
 	if !fin {
+		if w.Deadlock != "" {
+			return failf("deadlock", "input %s deadlocks the server:\n%s", q(c.Word), trimTo(w.Deadlock, 2500))
+		}
 		return Verdict{Inconclusive: "watchdog while finishing (server hung on " + q(c.Word) + ")"}
 	}
 	hostile := bytes.ContainsAny(c.Word, "\x00\r")
@@ -395,7 +398,7 @@ func c19MixRun(c c19MixCase) Verdict {
 	}
 	_, fin := w.Finish()
 	if !fin {
-		return Verdict{Inconclusive: "watchdog while finishing"}
+		return finishFail(w)
 	}
 	if p := r.Log.Panicked(); p != "" {
 		return failf("panic", "server logged a panic: %s", p)
@@ -457,9 +460,8 @@ func c19BlobRun(c c19BlobCase) Verdict {
 	w.SendCuts(c.Blob, c.Cuts)
 	_, fin := w.Finish()
 	if !fin {
-		stacks := harness.BlockedStacks(harness.ServerGoroutines())
-		if len(stacks) > 0 {
-			return failf("hang", "server hung on input %s:\n%s", q(c.Blob), stacks[0])
+		if w.Deadlock != "" {
+			return failf("deadlock", "input %s deadlocks the server:\n%s", q(c.Blob), trimTo(w.Deadlock, 2500))
 		}
 		return Verdict{Inconclusive: "watchdog while finishing"}
 	}
